@@ -195,6 +195,41 @@ func init() {
 				return "err"
 			}
 			return fmt.Sprint(p.IsChecked(parseColorArg(a[1])))
+		case "playq":
+			i := 1
+			for i < len(a) && a[i] != ";" {
+				i++
+			}
+			p, turn, _, _, err := fen.Decode(strings.Join(a[1:i], " "))
+			if err != nil {
+				return "err"
+			}
+			for i++; i < len(a); i++ {
+				m, ok := findMove(p, turn, a[i])
+				if !ok {
+					return "stuck"
+				}
+				next, ok := p.Move(m)
+				if !ok {
+					return "stuck"
+				}
+				p, turn = next, turn.Opponent()
+			}
+			att := func(by board.Color) string {
+				var bb uint64
+				for sq := board.ZeroSquare; sq < board.NumSquares; sq++ {
+					if p.IsAttacked(by.Opponent(), sq) {
+						bb |= 1 << sq
+					}
+				}
+				return strconv.FormatUint(bb, 16)
+			}
+			v := "v"
+			if !viewsOK(p) {
+				v = "VIEWS-BROKEN"
+			}
+			return strings.Join([]string{posKey(p, turn), att(board.White), att(board.Black), fmt.Sprint(p.IsChecked(board.White)),
+				fmt.Sprint(p.IsChecked(board.Black)), fmt.Sprint(p.IsCheckMate(turn)), v}, " ")
 		case "ismate":
 			p, turn, _, _, err := fen.Decode(strings.Join(a[1:], " "))
 			if err != nil {
@@ -482,6 +517,44 @@ func synthetic(r *rand.Rand) (string, bool) {
 		return "", false
 	}
 	return f, true
+}
+
+// lines generates played lines: a start FEN and the moves played from it (no re-decoding in between).
+func lines(r *rand.Rand, n, maxPlies int, visit func(start string, moves []string, feats map[string]bool)) {
+	for i := 0; i < n; i++ {
+		start := corpus[r.Intn(len(corpus))]
+		if r.Intn(4) == 0 {
+			if f, ok := synthetic(r); ok {
+				start = f
+			}
+		}
+		p, turn, _, _, _ := fen.Decode(start)
+		var moves []string
+		feats := map[string]bool{}
+		plies := 1 + r.Intn(maxPlies)
+		for k := 0; k < plies; k++ {
+			m, next, ok := pickMove(r, p, turn)
+			if !ok {
+				break
+			}
+			switch {
+			case m.IsCastle():
+				feats["castle"] = true
+			case m.Type == board.EnPassant:
+				feats["ep"] = true
+			case m.IsPromotion():
+				feats["promo"] = true
+			case m.IsCapture():
+				feats["capture"] = true
+			}
+			moves = append(moves, moveUci(m))
+			p, turn = next, turn.Opponent()
+			if r.Intn(3) == 0 {
+				visit(start, append([]string{}, moves...), feats)
+			}
+		}
+		visit(start, moves, feats)
+	}
 }
 
 // walk visits positions: corpus, playouts from corpus positions, synthetic positions and short
